@@ -282,8 +282,23 @@ def r3(ctx, p, b):
     tg = eb.op(t["args"][1])
     names = {d.get("name"): l for l, d in enumerate(b.locals) if d.get("name")}
 
+    # the three cursor variables, by role (whatever they are called): the group slice is
+    # parameters[<pending> .. <cursor> + nstate], the target is end - <frames so far>
+    role = {"frame_count": "frame_count", "next_state": "next_state", "state": "state"}
+    nst_ = Poly.atom(canon(("field", ("arg", 1, "self"), "nstate")))
+    if sl[0] == "idx" and sl[2][0] == "agg" and sl[2][1].endswith("Range::Range"):
+        s0 = sl[2][2][0]
+        if s0[0] == "var" and s0[2]:
+            role["next_state"] = s0[2]
+        ats = [a for a in (to_poly(sl[2][2][1]) - nst_).atoms() if a[0] == "var"]
+        if len(ats) == 1:
+            role["state"] = ats[0][1]
+    ats = [a for a in to_poly(tg).atoms() if a[0] == "var"]
+    if len(ats) == 1:
+        role["frame_count"] = ats[0][1]
+
     def var(n):
-        return ("var", n)
+        return ("var", role.get(n, n))
     # guard: end_frame >= 0
     gs = [sign_atom(g) for g in paths.guards(b, bb, eb)]
     gs = [g for g in gs if g]
@@ -310,16 +325,34 @@ def r3(ctx, p, b):
         ctx.ok("C09-R3", "group = parameters[next_state .. state + nstate]", cm.loc_of(t["span"]))
     else:
         ctx.fail("C09-R3", b.path, "group range", "group slice is %s" % show(sl), cm.loc_of(t["span"]))
+    # the fallback group (final labels without an end time): the same pending range, model durations
+    fcalls = cm.local_calls(b, p, exact=DE + "estimate_duration")
+    if len(fcalls) != 1:
+        ctx.fail("C09-R3", b.path, "fallback call", "expected one estimate_duration call for the trailing untimed labels, found %d" % len(fcalls), b.loc())
+    else:
+        fbb, ft = fcalls[0]
+        eb.at(fbb)
+        fsl = eb.op(ft["args"][0])
+        frho = eb.op(ft["args"][1])
+        okf = False
+        if fsl[0] == "idx" and show(fsl[1]) == "self.parameters" and fsl[2][0] == "agg" and fsl[2][1].endswith("Range::Range"):
+            st_, en_ = to_poly(fsl[2][2][0]), to_poly(fsl[2][2][1])
+            nst = Poly.atom(canon(("field", ("arg", 1, "self"), "nstate")))
+            okf = st_ == Poly.atom(var("next_state")) and en_ == Poly.atom(var("state")) + nst
+        if okf and frho[0] == "c" and float(frho[1]) == 0.0:
+            ctx.ok("C09-R3", "fallback = estimate_duration(parameters[next_state .. state + nstate], 0.0): every label since the last fitted group keeps its model durations", cm.loc_of(ft["span"]))
+        else:
+            ctx.fail("C09-R3", b.path, "fallback range", "the fallback for trailing untimed labels covers %s with rho %s, expected parameters[next_state .. state + nstate] with rho 0 (labels between the last timed one and the final one would vanish)" % (show(fsl)[:120], show(frho)), cm.loc_of(ft["span"]))
     dom = b.dominators()
     # updates in the fitted branch
     res_local = t["dest"]["local"]
 
     def defs_in_loop(name):
-        l = names.get(name)
+        l = names.get(role.get(name, name))
         return [d for d in b.defs().get(l, []) if d[0] in lb and not b.is_cleanup(d[0])] if l is not None else []
 
     def init_zero(name):
-        l = names.get(name)
+        l = names.get(role.get(name, name))
         ds = [d for d in b.defs().get(l, []) if d[0] not in lb and not b.is_cleanup(d[0])] if l is not None else []
         return len(ds) == 1 and ds[0][1] != "term" and ds[0][2]["rv"]["k"] == "use" and ds[0][2]["rv"]["op"].get("int") == 0
     for n in ("frame_count", "next_state", "state"):
